@@ -554,3 +554,63 @@ theorem sctpChunk_encoded (c : SctpChunk) (hw : c.Wf) (rest : Bits) (fuel : Nat)
     simp [leftPairs, chunkHeaderRows, rowsFields]
 
 end Schc
+
+namespace Schc
+open Bits Spec
+
+def chunksWire (cs : List SctpChunk) : Bits := cs.flatMap SctpChunk.wire
+def chunksFields (cs : List SctpChunk) : List (String × Bits) := cs.flatMap SctpChunk.fields
+
+theorem chunk_wire_len (c : SctpChunk) : 32 ≤ c.wire.length := by
+  simp only [SctpChunk.wire, List.length_append, ofNat_length]; omega
+
+/-- the chunk walk over RFC-encoded chunks: every chunk's fields in order, the whole buffer consumed -/
+theorem sctpChunks_encoded (cs : List SctpChunk) (hw : ∀ c ∈ cs, c.Wf) (fuel pf : Nat) (hf : cs.length ≤ fuel)
+    (hpf : ∀ c ∈ cs, paramCount c.value ≤ pf) :
+    ∃ fs, sctpChunks fuel pf ⟨chunksWire cs, .left⟩ = .ok fs ∧ pairs fs = leftPairs (chunksFields cs) := by
+  induction cs generalizing fuel with
+  | nil =>
+    have hl : ¬ ((⟨chunksWire [], .left⟩ : ABuf).length > 0) := by simp [chunksWire, ABuf.length]
+    cases fuel with
+    | zero => exact ⟨[], by simp only [sctpChunks, hl, if_false]; rfl, rfl⟩
+    | succ f => exact ⟨[], by simp only [sctpChunks, hl, if_false]; rfl, rfl⟩
+  | cons c cs ih =>
+    cases fuel with
+    | zero => simp at hf
+    | succ f =>
+      have hb : chunksWire (c :: cs) = c.wire ++ chunksWire cs := by simp [chunksWire]
+      have hl : (⟨c.wire ++ chunksWire cs, .left⟩ : ABuf).length > 0 := by
+        have := chunk_wire_len c
+        simp only [ABuf.length, List.length_append]; omega
+      obtain ⟨fs1, h1, h2⟩ := sctpChunk_encoded c (hw c (by simp)) (chunksWire cs) pf (hpf c (by simp))
+      obtain ⟨fs2, h3, h4⟩ := ih (fun q hq => hw q (List.mem_cons_of_mem _ hq)) f (by simp at hf; omega)
+        (fun q hq => hpf q (List.mem_cons_of_mem _ hq))
+      have hfrom : (⟨c.wire ++ chunksWire cs, .left⟩ : ABuf).from_ c.wire.length = ⟨chunksWire cs, .left⟩ := by
+        simp [ABuf.from_]
+      refine ⟨fs1 ++ fs2, ?_, ?_⟩
+      · simp only [sctpChunks, hb, hl, if_true, bind, Except.bind, h1, hfrom, h3, pure, Except.pure]
+      · simp [pairs_append, h2, h4, chunksFields]
+
+def commonRows (sport dport vtag cksum : Nat) : Rows :=
+  [("SCTP:Source Port", 16, sport), ("SCTP:Destination Port", 16, dport), ("SCTP:Verification Tag", 32, vtag), ("SCTP:Checksum", 32, cksum)]
+
+/-- a whole RFC 9260 packet: common header, then chunks of any types — the parser returns the RFC's field list and
+    reports the whole packet as header -/
+theorem sctpParse_encoded (sport dport vtag cksum : Nat) (cs : List SctpChunk) (hw : ∀ c ∈ cs, c.Wf) (fuel : Nat)
+    (hf : cs.length ≤ fuel) (hpf : ∀ c ∈ cs, paramCount c.value ≤ fuel) :
+    let b : ABuf := ⟨rowsBits (commonRows sport dport vtag cksum) ++ chunksWire cs, .left⟩
+    ∃ h, sctpParse fuel b = .ok h ∧ h.length = b.length ∧
+      pairs h.fields = leftPairs (rowsFields (commonRows sport dport vtag cksum) ++ chunksFields cs) := by
+  intro b
+  have hrl : (rowsBits (commonRows sport dport vtag cksum)).length = 96 := by rw [rowsBits_length]; rfl
+  unfold sctpParse
+  have hmin : ¬ (b.length < Gen.sctpMinLength) := by
+    simp only [b, ABuf.length, List.length_append, hrl, Gen.sctpMinLength]; omega
+  simp only [hmin, if_false, bind, Except.bind]
+  have hfrom : b.from_ 96 = ⟨chunksWire cs, .left⟩ := from_after_rows _ _ 96 hrl.symm
+  obtain ⟨fs, h1, h2⟩ := sctpChunks_encoded cs hw fuel fuel hf hpf
+  rw [hfrom, h1]
+  refine ⟨_, rfl, rfl, ?_⟩
+  rw [pairs_append, leftPairs_append, h2, fixed_rows Gen.sctpCommonLayout (commonRows sport dport vtag cksum) rfl _]
+
+end Schc
